@@ -15,7 +15,7 @@ PANDAS_INPLACE = {'drop', 'reset_index', 'set_index', 'sort_values', 'sort_index
 
 
 class Effect:
-  __slots__ = ('kind', 'node', 'stmt', 'target', 'target_text', 'expanded', 'root', 'value', 'attr')
+  __slots__ = ('kind', 'node', 'stmt', 'target', 'target_text', 'expanded', 'root', 'value', 'attr', 'recv_ast')
 
   def __repr__(self):
     return '<Effect %s %s>' % (self.kind, self.expanded)
